@@ -279,7 +279,22 @@ void UseNestedVariant() {
   d.Visit([](auto&&) {});
 }
 
+// an element type with a greedy implicit converting constructor (the std::any style): constructible from ANYTHING, including the
+// Optional / Entry that holds it - copies and assignments of the wrapper must still be copies
+struct Greedy {
+  Greedy() {}
+  Greedy(const Greedy&) {}
+  Greedy(Greedy&&) {}
+  Greedy& operator=(const Greedy&) { return *this; }
+  Greedy& operator=(Greedy&&) { return *this; }
+  template <typename T> Greedy(T&&) {}
+  ~Greedy() {}
+};
 void UseLvalueCopies() {
+  Optional<Greedy> ga, gb; Optional<Greedy> gc{ga}; ga = gb; ga = std::move(gc);
+  Entry<Greedy, 1> gea, geb; Entry<Greedy, 1> ec{gea}; gea = geb; ga = gea;
+  Optional<bool> xa, xb; xa = xb; Optional<std::string> ya, yb; ya = yb; ya = std::move(yb);
+  (void)ec;
   Optional<bool> ob; Optional<bool> ob2{ob}; Optional<bool> ob3 = ob; (void)ob2; (void)ob3;
   Optional<int> oi; Optional<int> oi2{oi}; (void)oi2;
   Optional<std::string> os; Optional<std::string> os2{os}; (void)os2;
